@@ -105,13 +105,33 @@ def shadow_candidates(stmts):
     and the block defining b does not mention a"""
     out = []
 
+    def direct(body):
+        """labels a block defines in its own scope: its direct ones and those inside .if branches (an .if opens no scope)"""
+        ls = []
+        for s in body:
+            if s[0] == "label":
+                ls.append(s[1])
+            elif s[0] == "if":
+                ls += direct(s[2]) + (direct(s[3]) if s[3] is not None else [])
+        return ls
+
+    def through_ifs(body):
+        for s in body:
+            if s[0] == "if":
+                yield from through_ifs(s[2])
+                if s[3] is not None:
+                    yield from through_ifs(s[3])
+            else:
+                yield s
+
     def rec(body, outer_labels):
-        here = [s[1] for s in body if s[0] == "label"]
+        here = direct(body)
+        body = list(through_ifs(body))
         for s in body:
             if s[0] in ("block", "scope"):
                 inner = s[1] if s[0] == "block" else s[2]
                 text = gen_program.source(inner)
-                inner_labels = [x[1] for x in inner if x[0] == "label"]
+                inner_labels = direct(inner)
                 for a in outer_labels + here:
                     if a not in twins.names_in(text):
                         for b in inner_labels:
@@ -123,8 +143,8 @@ def shadow_candidates(stmts):
         for i in range(len(kids)):
             for j in range(len(kids)):
                 if i != j:
-                    la = [x[1] for x in kids[i][1] if x[0] == "label"]
-                    lb = [x[1] for x in kids[j][1] if x[0] == "label"]
+                    la = direct(kids[i][1])
+                    lb = direct(kids[j][1])
                     tj = gen_program.source(kids[j][1])
                     ti = gen_program.source(kids[i][1])
                     for a in la:
@@ -168,6 +188,13 @@ def directed(run, prop, tier, seed):
                 # block-valued parameters of the same name in nested applications / a sibling symbol of that name
                 (f"*=0x008000\n.macro inner(chunk) {{\n{{{{chunk}}}}\n}}\n.macro outer(chunk) {{\n.db 0xaa\ninner({{\n.db {a}\n}})\n{{{{chunk}}}}\n}}\nouter({{\n.db {b}\n}})\n", bytes([0xAA, a, b])),
                 (f"*=0x008000\n.macro w(chunk) {{\n{{{{chunk}}}}\n}}\nw({{\n.db {a}\n}})\n{{\nchunk = {b}\n.db chunk\n}}\n", bytes([a, b])),
+                # definitions guarded by a condition belong to the block that holds the .if
+                (f"*=0x008000\nx:\n.db {a}\n{{\n.if 1 {{\nx:\n.db {b}\n.dw x\n}}\n}}\n.dw x\n", bytes([a, b, 0x01, 0x80, 0x00, 0x80])),
+                (f"*=0x008000\n{{\n.if {a} {{\nx:\n.db {a}\n.dw x\n}}\n}}\n{{\n.if 0 {{\n.db 0xEE\n}} else {{\n.db {b}\nx:\n.dw x\n}}\n}}\n", bytes([a, 0x00, 0x80, b, 0x04, 0x80])),
+                (f"*=0x008000\nv := {a}\n{{\n.if v {{\nv := {b}\n.db v\n}}\n}}\n.db v\n{{\nnop\n.if 1 {{\nv = {c}\n}}\n.db v\n}}\n.db v\n", bytes([b, a, 0xEA, c, a])),
+                # lookup walks the whole chain of enclosing scopes (macro parameter seen through a loop and a block)
+                (f"*=0x008000\n.macro row(wide) {{\n.for k := 0, 2 {{\n{{\n.if wide {{\n.db wide, k\n}} else {{\n.db 0xEE\n}}\n}}\n}}\n}}\nrow({a})\nrow(0)\n", bytes([a, 0, a, 1, 0xEE, 0xEE])),
+                (f"*=0x008000\n.scope outer {{\nlim = {a}\n.scope mid {{\n{{\n.db lim\n}}\n}}\n}}\n", bytes([a])),
             ]
         elif prop == "C09":
             fam += [
@@ -185,6 +212,15 @@ def directed(run, prop, tier, seed):
                 (f"*=0x008000\n.macro p(v) {{\n.db v\n}}\n.macro twice(code) {{\n{{{{code}}}}\n.db 0xEE\n{{{{code}}}}\n}}\ntwice({{\np({a})\n.for j := 0, 2 {{\np(j)\n}}\n}})\n.db {b}\n", bytes([a, 0, 1, 0xEE, a, 0, 1, b])),
                 (f"*=0x008000\n.macro w(code) {{\n{{{{code}}}}\n}}\n.macro outer(v) {{\nw({{\n.if v {{\n.db v\n}} else {{\n.db {a}\n}}\n}})\n}}\nouter(0)\nouter(1)\nouter({c})\n", bytes([a, 1, c])),
                 ("*=0x008000\nnot_defined_macro(1)\n", None),
+                # an undefined macro fails wherever the application is reached
+                (f"*=0x008000\n.db {a}\n.if 1 {{\n.db 1\nnot_defined_macro()\n}} else {{\n.db 2\n}}\n", None),
+                (f"*=0x008000\n.macro w(code) {{\n.if 1 {{\n{{{{code}}}}\n}}\n}}\nw({{\nnot_defined_macro({a})\n}})\n", None),
+                (f"*=0x008000\n.macro outer(v) {{\n.if v {{\n.for i := 0, 2 {{\nmissing_inner(i)\n}}\n}}\n}}\nouter({a})\n", None),
+                (f"*=0x008000\n.if 0 {{\nnot_defined_macro()\n}}\n.db {a}\n", bytes([a])),
+                # each parameter is bound to its own argument, whatever the other arguments are (labels are resolved later)
+                (f"*=0x008000\n.macro e(t, wide) {{\n.if wide {{\n.dw t\n}} else {{\n.db t & 0xff\n}}\n}}\ne(first, 1)\ne(first, 0)\ne({a}, 1)\nfirst:\n", b"\x05\x80\x05" + bytes([a, 0])),
+                (f"*=0x008000\n.macro rec(n, t) {{\n.if n {{\n.dw t + n\nrec(n - 1, t)\n}}\n}}\nrec({c}, base)\nbase:\n", b"".join((0x8000 + 2 * c + i).to_bytes(2, "little") for i in range(c, 0, -1))),
+                (f"*=0x008000\n.macro fill(t, n) {{\n.for i := 0, n {{\n.db i\n}}\n.dw t\n}}\nfill(end, {c})\nend:\n", bytes(range(c)) + (0x8000 + c + 2).to_bytes(2, "little")),
                 (f"*=0x008000\n.macro f(v, n) {{\n.db v, n\n}}\nn := {c}\nf({a})\n", None),
             ]
         else:
@@ -201,6 +237,13 @@ def directed(run, prop, tier, seed):
                 (f"*=0x008000\n.for i := 0, 2 {{\n.for j := 0, {c} {{\n.scope t {{\nv = i + j\n}}\n.db t.v\n}}\n}}\n", bytes(i + j for i in range(2) for j in range(c))),
                 # a macro defined in the selected branch only
                 (f"*=0x008000\n.if {a} {{\n.macro pick() {{\n.db 0x11\n}}\n}} else {{\n.macro pick() {{\n.db 0x22\n}}\n}}\npick()\n.if 0 {{\n.macro pick() {{\n.db 0x33\n}}\n}}\npick()\n", bytes([0x11, 0x11])),
+                # bounds are values: an expression bound is evaluated as a whole
+                (f"*=0x008000\n.for k := 1 << 4, 0x10 + {c} {{\n.db k\n}}\n", bytes(range(16, 16 + c))),
+                (f"*=0x008000\nbase := 0x{0xA0 + (a & 0xF):x}\n.for k := base & 0xF0, (base & 0xF0) + {c} {{\n.db k\n}}\n.macro rows(from) {{\n.for r := from >> 1, (from >> 1) + 2 {{\n.db r\n}}\n}}\nrows({2 * a})\n", bytes(range(0xA0, 0xA0 + c)) + bytes([a, a + 1])),
+                (f"*=0x008000\nn := {a}\n.for k := n - 1, n + 1 {{\n.db k\n}}\nn = 0\n", bytes([a - 1, a])),
+                # a condition sees names of every enclosing scope
+                (f"*=0x008000\n.macro row(wide) {{\n.for k := 0, 2 {{\n.if wide {{\n.db wide\n}} else {{\n.db 0xEE\n}}\n}}\n}}\nrow({a})\nrow(0)\n", bytes([a, a, 0xEE, 0xEE])),
+                (f"*=0x008000\n.scope cfg {{\non := {a}\n{{\n.for k := 0, 2 {{\n.if on {{\n.db k\n}}\n}}\n}}\n}}\n", bytes([0, 1])),
                 (f"*=0x008000\n.for i := 0, 2 {{\n.for j := 0, {c} {{\n.db i, j\n}}\n}}\njmp.w done\ndone:\n", b"".join(bytes([i, j]) for i in range(2) for j in range(c)) + b"\x4c" + (0x8000 + 4 * c + 3).to_bytes(2, "little")),
             ]
     progs = [raw("low_rom", src, meta=exp) for src, exp in fam]
